@@ -3,6 +3,7 @@
   specification, plus a diagnosis of the first divergence) and `sink` (scripted writer).
 -/
 import SonicSpec.Model.IOJson
+import SonicSpec.Model.IOPatched
 namespace SonicSpec.Driver.IO
 open SonicSpec SonicSpec.IO
 
@@ -89,15 +90,24 @@ def diagnose (term : RErr) : List (Bytes × Nat) → Stop → List (Bytes × Nat
         else if (Fixed.frame rest).isNone || lit then "truncated-clean-eof" else "other"
       | .term (.readerErr _), .term .syntaxError, c :: _ =>
         let lit := c == 116 || c == 110 || c == 102
-        if Fixed.kindOf c == .invalid || lit then "error-precedence" else "other"
+        if Fixed.kindOf c == .invalid then "error-precedence"
+        else if lit then "error-precedence-literal" else "other"
       | .term .syntaxError, .term (.readerErr _), c :: _ => if isNumStart c then "scalar-split" else "other"
       | _, _, _ => "other"
 
-def streamLine (fe : RErr) (sc : Script) : String :=
+def parseRepairs (opts : String) : Repairs :=
+  match opts.splitOn ":" with
+  | [_, fl] => { closer := fl.contains 'a', trunc := fl.contains 'b', split := fl.contains 'c',
+                 inval := fl.contains 'd', pos := fl.contains 'e' }
+  | _ => {}
+
+def streamLine (rp : Repairs) (fe : RErr) (sc : Script) : String :=
   let data := concat sc
   let term := termOf sc fe
   let init : DState := {}
-  let (mt, ms) := traceRun (Faithful.decode decSonic) data maxCalls init sc .eof
+  let shipped : DState → Script → RErr → DecodeRes Bytes × DState × Script × RErr :=
+    if rp == {} then Faithful.decode decSonic else Patched.decode decSonic rp
+  let (mt, ms) := traceRun shipped data maxCalls init sc .eof
   let (ft, fs) := traceRun (Fixed.decode decSonic) data maxCalls init sc .eof
   let (st, ss, last) := specTrace decSonic false term data.length maxCalls data
   let (lt, ls, _) := specTrace decSonic true term data.length maxCalls data
@@ -136,12 +146,12 @@ def sinkLine (opts : String) (ws : List WStep) (ms : List Bytes) : String :=
   s!"model={show_ (encodeAll (Faithful.encode indent noNL) ms ws)}\tfixed={show_ (encodeAll (Fixed.encode indent noNL) ms ws)}"
 
 def handle : List String → Option String
-  | "stream" :: _opts :: final :: chunks =>
+  | "stream" :: opts :: final :: chunks =>
     let fe : RErr := if final == "err" then .fail 1 else .eof
     match parseChunks fe chunks with
     | some sc =>
       -- the reader's own terminal error applies once the script is used up
-      some (streamLine fe (sc ++ [([], some fe)]))
+      some (streamLine (parseRepairs opts) fe (sc ++ [([], some fe)]))
     | none => some "model=badcase"
   | ["sink", opts, wscript, marsh] =>
     match parseWScript wscript, (if marsh == "-" then some [] else (marsh.splitOn ",").mapM unhexArg) with
